@@ -49,6 +49,7 @@ type Clause struct {
 	Expr  CExpr
 	Src   string
 	Loop  int
+	Label string
 	File  string
 	Line  int
 	Owner string
@@ -87,6 +88,7 @@ type Contract struct {
 	Binds      []BindDef
 	Requires   []*Clause
 	Ensures    []*Clause
+	CallSites  []*Clause
 	Loops      map[int]*LoopSpec
 	Decreases  CExpr
 	File       string
@@ -164,7 +166,7 @@ func NewSpecs() *Specs {
 	return &Specs{Fns: map[string]*SpecFn{}, Consts: map[string]*SpecConst{}, Defines: map[string]*SpecDefine{}, Ghosts: map[string]string{}, IfacePure: map[string]bool{}}
 }
 
-var directiveRe = regexp.MustCompile(`^(sort|fn|const|define|axiom|lemma|ginv|pkginv|noinv|needsinv|inline|ghost|errattr|ifacepure|package|func|trusted|pure|modifies|let|requires|assume|ensures|loop|invariant|decreases|bind)\b`)
+var directiveRe = regexp.MustCompile(`^(sort|fn|const|define|axiom|lemma|ginv|pkginv|noinv|needsinv|inline|ghost|errattr|ifacepure|package|func|trusted|pure|modifies|let|requires|assume|ensures|callsite|loop|invariant|decreases|bind)\b`)
 
 type logicalLine struct {
 	text string
@@ -208,7 +210,7 @@ func readLogicalLines(path string, repoStyle bool) ([]logicalLine, error) {
 	return out, sc.Err()
 }
 
-var clauseHead = regexp.MustCompile(`^(requires|assume|ensures|invariant|axiom|lemma|ginv|pkginv)(\[[^\]]*\])?\s+([A-Za-z0-9_.\-]+)\s*:\s*(.*)$`)
+var clauseHead = regexp.MustCompile(`^(requires|assume|ensures|callsite|invariant|axiom|lemma|ginv|pkginv)(\[[^\]]*\])?\s+([A-Za-z0-9_.\-]+)\s*:\s*(.*)$`)
 
 func (s *Specs) LoadFile(path string, repoStyle bool, defaultPkg string) error {
 	lines, err := readLogicalLines(path, repoStyle)
@@ -458,6 +460,23 @@ func (s *Specs) LoadFile(path string, repoStyle bool, defaultPkg string) error {
 			} else {
 				cur.Decreases = e
 			}
+		case "callsite":
+			// callsite[Cxx] LABEL NAME: EXPR   -- must hold at the call LABEL (e.g. add#2); EXPR may use the
+			// caller's source-level locals and the callee's parameters as arg_<name>
+			if cur == nil {
+				return errf("callsite outside func block")
+			}
+			m := regexp.MustCompile(`^callsite(\[[^\]]*\])?\s+(\S+)\s+([A-Za-z0-9_.\-]+)\s*:\s*(.*)$`).FindStringSubmatch(t)
+			if m == nil {
+				return errf("bad callsite (need `callsite[tags] label name: expr`)")
+			}
+			e, err := ParseCExpr(m[4])
+			if err != nil {
+				return errf("%v", err)
+			}
+			cl := &Clause{Kind: "callsite", Name: m[3], Expr: e, Src: m[4], File: path, Line: ll.line, Owner: cur.FuncName, Label: m[2]}
+			cl.Tags = parseTags(m[1])
+			cur.CallSites = append(cur.CallSites, cl)
 		case "requires", "assume", "ensures", "invariant":
 			if cur == nil {
 				return errf("%s outside func block", word)
